@@ -10,6 +10,7 @@ package parser
 //
 //@ pure func (ial *IndentAwareLexer) hist() seq[antlr.Token] { return (&ial.pendingTokens).hist }
 //@ pure func (ial *IndentAwareLexer) stk() seq[int] { return seq(*(&ial.indents)) }
+//@ pure func (ial *IndentAwareLexer) top() int { return len(ial.stk()) > 0 ? ial.stk()[len(ial.stk()) - 1] : 0 }
 //@ pure func (ial *IndentAwareLexer) open() int {
 //@     return tokCount(ial.hist(), YarnSpinnerLexerINDENT) - tokCount(ial.hist(), YarnSpinnerLexerDEDENT) }
 //@ pred (ial *IndentAwareLexer) bufOK() {
@@ -33,10 +34,17 @@ package parser
 // Indentation that mixes tabs and spaces is refused (C05): the function panics exactly when the text of the
 // NEWLINE token contains both a space and a tab (FromReader turns the panic into an error), and otherwise
 // returns the width with a tab counting 8.
+// The width of an indentation: a space counts 1, a tab 8, anything else (the line break itself) 0.
+//@ opaque pure func widthFrom(s string, k int) int {
+//@     return (k < 0 || k >= runeLen(s)) ? 0 : (runeAt(s, k) == 32 ? 1 : (runeAt(s, k) == 9 ? 8 : 0)) + widthFrom(s, k + 1) }
+//@ pure func indentWidth(s string) int { return widthFrom(s, 0) }
+//
 //@ func (ial *IndentAwareLexer) getLengthOfNewlineToken(currentToken antlr.Token) (res int)
 //@   requires dyntype(currentToken) != 0
 //@   panics   "mixed-indentation": hasRune(tokText(currentToken), 32) && hasRune(tokText(currentToken), 9)
 //@   ensures  "non-negative": res >= 0
+//@   ensures  "width": res == indentWidth(tokText(currentToken))
+//@   loop 0: invariant "width-so-far": length + widthFrom(tokText(currentToken), rangecount) == widthFrom(tokText(currentToken), 0)
 //@   loop 0: invariant length >= 0 && 0 <= rangecount && rangecount <= runeLen(tokText(currentToken)) &&
 //@           sawSpaces == (exists k int :: {runeAt(tokText(currentToken), k)} 0 <= k && k < rangecount && runeAt(tokText(currentToken), k) == 32) &&
 //@           sawTabs == (exists k int :: {runeAt(tokText(currentToken), k)} 0 <= k && k < rangecount && runeAt(tokText(currentToken), k) == 9)
@@ -46,8 +54,31 @@ package parser
 //@   modifies fields(&ial.pendingTokens), elems((&ial.pendingTokens).base), *(&ial.indents), elems(*(&ial.indents))
 //@   ensures  "wf": ial.wf()
 //@   ensures  "grows": (&ial.pendingTokens).ndeq == old((&ial.pendingTokens).ndeq) && len(ial.hist()) > len(old(ial.hist())) && ial.bufOK()
+// what is emitted and how the stack moves is decided by comparing the width with the stack only (C08, C20):
+// a wider line opens one level; a narrower one closes exactly the levels wider than it; the NEWLINE token comes first
+//@   ensures  "stack-by-width":
+//@       (indentWidth(tokText(currentToken)) > old(ial.top()) ==> ial.stk() == snoc(old(ial.stk()), indentWidth(tokText(currentToken)))) &&
+//@       (indentWidth(tokText(currentToken)) <= old(ial.top()) ==> len(ial.stk()) <= len(old(ial.stk())) &&
+//@           (forall i int :: {ial.stk()[i]} 0 <= i && i < len(ial.stk()) ==> ial.stk()[i] == old(ial.stk())[i] && ial.stk()[i] <= indentWidth(tokText(currentToken))) &&
+//@           (forall i int :: {old(ial.stk())[i]} len(ial.stk()) <= i && i < len(old(ial.stk())) ==> old(ial.stk())[i] > indentWidth(tokText(currentToken))))
+//@   ensures  "newline-first-then-one-indent-or-the-dedents":
+//@       len(ial.hist()) > len(old(ial.hist())) && ial.hist()[len(old(ial.hist()))] == currentToken &&
+//@       (forall k int :: {ial.hist()[k]} 0 <= k && k < len(old(ial.hist())) ==> ial.hist()[k] == old(ial.hist())[k]) &&
+//@       (indentWidth(tokText(currentToken)) > old(ial.top()) ==> len(ial.hist()) == len(old(ial.hist())) + 2 &&
+//@           tokType(ial.hist()[len(old(ial.hist())) + 1]) == YarnSpinnerLexerINDENT) &&
+//@       (indentWidth(tokText(currentToken)) <= old(ial.top()) ==>
+//@           len(ial.hist()) == len(old(ial.hist())) + 1 + (len(old(ial.stk())) - len(ial.stk())) &&
+//@           (forall k int :: {ial.hist()[k]} len(old(ial.hist())) + 1 <= k && k < len(ial.hist()) ==> tokType(ial.hist()[k]) == YarnSpinnerLexerDEDENT))
 //@   loop 0: invariant "balance": ial.wf() && (&ial.pendingTokens).ndeq == old((&ial.pendingTokens).ndeq) && len(ial.hist()) > len(old(ial.hist())) && ial.bufOK()
 //@   loop 0: invariant "prev": previousIndent == (len(ial.stk()) > 0 ? ial.stk()[len(ial.stk()) - 1] : 0)
+//@   loop 0: invariant "closing": currentIndentationLength == indentWidth(tokText(currentToken)) && currentIndentationLength < old(ial.top()) &&
+//@           len(ial.stk()) <= len(old(ial.stk())) &&
+//@           (forall i int :: {ial.stk()[i]} 0 <= i && i < len(ial.stk()) ==> ial.stk()[i] == old(ial.stk())[i]) &&
+//@           (forall i int :: {old(ial.stk())[i]} len(ial.stk()) <= i && i < len(old(ial.stk())) ==> old(ial.stk())[i] > currentIndentationLength) &&
+//@           ial.hist()[len(old(ial.hist()))] == currentToken &&
+//@           (forall k int :: {ial.hist()[k]} 0 <= k && k < len(old(ial.hist())) ==> ial.hist()[k] == old(ial.hist())[k]) &&
+//@           len(ial.hist()) == len(old(ial.hist())) + 1 + (len(old(ial.stk())) - len(ial.stk())) &&
+//@           (forall k int :: {ial.hist()[k]} len(old(ial.hist())) + 1 <= k && k < len(ial.hist()) ==> tokType(ial.hist()[k]) == YarnSpinnerLexerDEDENT)
 //@   loop 0: decreases len(ial.stk())
 //
 //@ func (ial *IndentAwareLexer) handleEndOfFileToken(currentToken antlr.Token)
